@@ -4,6 +4,7 @@ package c15
 import (
 	"fmt"
 	"os"
+	"sort"
 	"strconv"
 	"testing"
 
@@ -89,7 +90,10 @@ type palsCase struct {
 	// TubeAt >= 1: the aligner is created with an explicit tube offset of MaxError + TubeAt - 1, MaxError
 	// being what Optimise chooses for these settings (learned from a throw-away aligner); the smallest
 	// offset the filter accepts is MaxError itself. Soundness and error-free runs are asserted, recall is not.
-	TubeAt     int    `json:"tube_at,omitempty"`
+	TubeAt int `json:"tube_at,omitempty"`
+	// SavedTraps: the trapezoids of the forward search are kept (Trapezoids()) across the complement
+	// search and then aligned again through AlignFrom: the same hits as the forward search gave
+	SavedTraps bool   `json:"saved_traps,omitempty"`
 	BlockIndel int    `json:"block_indel,omitempty"`
 	BlockAt    int    `json:"block_at_permille,omitempty"`
 	SeedT      uint64 `json:"seed_t"`
@@ -431,10 +435,24 @@ func check(c palsCase) *vlib.Failure {
 	}
 	strands := []bool{false, true}
 	found := false
+	var savedTraps filter.Trapezoids
+	var forwardHits string
 	for _, comp := range strands {
 		hits, err := p.Align(comp)
 		if err != nil {
 			return vlib.Failf("align-error", "%s: Align(%v): %v", desc, comp, err)
+		}
+		if c.SavedTraps && !comp {
+			savedTraps, forwardHits = p.Trapezoids(), hitSet(hits)
+		}
+		if c.SavedTraps && comp {
+			again, err := p.AlignFrom(savedTraps, false)
+			if err != nil {
+				return vlib.Failf("align-error", "%s: AlignFrom(trapezoids kept from Align(false), false): %v", desc, err)
+			}
+			if got := hitSet(again); got != forwardHits {
+				return vlib.Failf("saved-trapezoids", "%s: the trapezoids of the forward search, kept across Align(true) and aligned again with AlignFrom, give %s; Align(false) had given %s", desc, clipS(got), clipS(forwardHits))
+			}
 		}
 		query := b.query
 		if comp {
@@ -512,6 +530,22 @@ func check(c palsCase) *vlib.Failure {
 	return nil
 }
 
+func hitSet(h dp.Hits) string {
+	l := make([]string, len(h))
+	for i, x := range h {
+		l[i] = fmt.Sprintf("%d,%d,%d,%d,%d,%.6f", x.Abpos, x.Bbpos, x.Aepos, x.Bepos, x.Score, x.Error)
+	}
+	sort.Strings(l)
+	return fmt.Sprintf("%d hits %v", len(l), l)
+}
+
+func clipS(s string) string {
+	if len(s) > 300 {
+		return s[:300] + "..."
+	}
+	return s
+}
+
 func clip(h dp.Hits) string {
 	if len(h) > 4 {
 		return fmt.Sprint(h[:4]) + "…"
@@ -539,6 +573,12 @@ func soundness(c palsCase, b built, hits dp.Hits, target, query []byte, comp boo
 		best, dist := globalScoreAndDistance(a, bb)
 		if h.Score > best {
 			return vlib.Failf("hit-score-above-optimum", "%s reports score %d but the optimal global alignment of the two regions scores %d (match +1, mismatch/indel -3)", what, h.Score, best)
+		}
+		if 4*h.Error*float64(len(bb)) < float64(len(bb)-h.Score)-1e-6 {
+			// every letter of the query region that is not matched costs the score at least 4 against a
+			// perfect copy (a substitution or insertion 1 + 3, a deletion 3): the reported score itself
+			// implies at least (|B| - Score) / 4 differences per letter
+			return vlib.Failf("hit-error-understated", "%s: the reported error %.5f is below what the reported score implies, (|B| - Score) / (4 |B|) = %.5f", what, h.Error, float64(len(bb)-h.Score)/(4*float64(len(bb))))
 		}
 		if float64(3*dist) > 4*h.Error*float64(len(bb))+1e-6 {
 			return vlib.Failf("hit-error-understated", "%s: the regions are at edit distance %d, more than the reported error allows (3d <= 4*Error*|B| = %.2f)", what, dist, 4*h.Error*float64(len(bb)))
@@ -614,6 +654,7 @@ func gen(t *rapid.T) palsCase {
 		c.BlockIndel = -n + 2*n*int(c.SeedM&1)
 		c.BlockAt = 505 + int(c.SeedM>>3)%90
 	}
+	c.SavedTraps = rapid.IntRange(0, 4).Draw(t, "saved-traps") == 3
 	c.SelfCopy = c.Self && rapid.Bool().Draw(t, "self-copy")
 	c.Shared = rapid.IntRange(0, 5).Draw(t, "shared") == 4
 	if rapid.IntRange(0, 7).Draw(t, "explicit-tube-offset") == 6 {
@@ -647,6 +688,9 @@ func classes(c palsCase) []string {
 	}
 	if c.BlockIndel != 0 {
 		l = append(l, "one-indel-of-2-to-5-letters")
+	}
+	if c.SavedTraps {
+		l = append(l, "trapezoids-kept-and-aligned-again")
 	}
 	if c.SelfCopy {
 		l = append(l, "self-comparison-with-an-equal-copy-as-query")
